@@ -9,7 +9,7 @@ import time
 import traceback
 
 VERIF = os.path.dirname(os.path.dirname(os.path.abspath(__file__)))
-EVID = os.path.join(VERIF, 'evidence')
+EVID = os.environ.get('VERIF_EVIDENCE_DIR') or os.path.join(VERIF, 'evidence')      # override only for experiments (seeded-change runs)
 REPLAYS = os.path.join(VERIF, 'replays')
 SEEDS = os.path.join(VERIF, 'seeds')
 NCPU = int(os.environ.get('VERIF_JOBS', os.cpu_count() or 4))
